@@ -38,7 +38,7 @@ def norm_term(t):
     if t[0] == "call" and t[1].endswith(("Entry::or_default", "Entry::or_insert_with", "Entry::or_insert")) \
             and t[2][0][0] == "mcall" and t[2][0][1].endswith("::entry"):
         e = t[2][0]
-        return ("slot", e[2][0], e[2][1])
+        return ("slot", e[2][0], ord_key_tuple(e[2][1]))
     if t[0] == "pl" and t[1][0] == "slot":
         return ("slot",) + t[1][1:] + (t[2],) if t[2] else t[1]
     if t[0] == "bool" and t[1][0] == "fresh":
@@ -70,6 +70,24 @@ def key_tuple(k):
     return k
 
 
+def ord_key_tuple(k):
+    """a BTreeMap key that is a private struct with derived PartialEq + Eq + PartialOrd + Ord compares like the tuple of its
+    fields in DECLARATION order (derive(Ord) is lexicographic over the fields as declared)"""
+    fx = _DERIVED_KEYS["fx"]
+    if k[0] == "adt" and fx is not None:
+        derived = {i_.get("trait") for i_ in fx.items["proguard"]["impls"]
+                   if i_.get("exp") and i_.get("self", "").split("<")[0].split("::")[-1] == k[1]}
+        if {"std::cmp::PartialEq", "std::cmp::Eq", "std::cmp::PartialOrd", "std::cmp::Ord"} <= derived:
+            decl = None
+            for a_ in fx.all_adts("proguard"):
+                if a_["path"].split("::")[-1] == k[1]:
+                    decl = [f_["name"] for f_ in a_["variants"][0]["fields"]]
+            d = dict(k[3])
+            if decl and set(decl) == set(d):
+                return ("tuple", tuple(d[n_] for n_ in decl))
+    return k
+
+
 def norm_effect(e):
     """effect -> normalised effect or None (dropped)"""
     k = e[0]
@@ -82,7 +100,7 @@ def norm_effect(e):
         if name.endswith("HashSet::insert"):
             return ("set_insert", args[0], key_tuple(args[1]))
         if name.endswith(("BTreeMap::insert", "HashMap::insert")):
-            return ("map_insert", args[0], args[1], args[2])
+            return ("map_insert", args[0], ord_key_tuple(args[1]), args[2])
         if name.endswith(("HashSet::clear", "HashMap::clear", "BTreeMap::clear", "Vec::clear")):
             return ("clear", args[0])
         return ("other", name, args)
